@@ -88,6 +88,8 @@ pub struct RaceCase {
     ///    add and commit with it, release
     /// 5: hold one indexing worker at a file creation, make the other worker fail (I/O fault), wait_merging_threads
     ///    (returns the worker's error), open the index again, new writer, add and commit, release
+    /// 6: hold one indexing worker inside the n-th rewrite of .managed.json (registration of a new file) while the other
+    ///    worker registers its files, commit; the persisted list, read through a fresh Index, must name every file
     pub kind: u8,
     pub nth: u8,
     pub adds_during: Vec<AddSpec>,
@@ -116,16 +118,16 @@ impl Sub for Races {
             c
         });
         let prefix_op = prop_oneof![8 => add_strategy().prop_map(Op::Add), 1 => any::<u16>().prop_map(Op::DelUid), 3 => Just(Op::Commit)];
-        (cfg, prop::collection::vec(prefix_op, 2..20), 0u8..6, 0u8..6, prop::collection::vec(add_strategy(), 1..5), prop::collection::vec(op_strategy(false), 0..8))
+        (cfg, prop::collection::vec(prefix_op, 2..20), 0u8..7, 0u8..6, prop::collection::vec(add_strategy(), 1..5), prop::collection::vec(op_strategy(false), 0..8))
             .prop_map(|(cfg, prefix, kind, nth, adds_during, suffix)| RaceCase { cfg, prefix, kind, nth, adds_during, suffix })
             .boxed()
     }
     fn mandatory_labels(&self, _t: Tier) -> Vec<&'static str> {
-        vec!["race:gc_queued_behind_commit", "race:gc_while_worker_writes_segment", "race:gc_while_merge_writes_segment", "race:gc_while_reader_loads", "race:old_updater_task_after_writer_drop", "old_updater_held_at_writer_drop", "race:worker_held_while_other_worker_fails", "wait_merging_threads_returned_worker_error", "reader_held_at_meta_lock", "reader_held_at_segment_file_open", "gate_reached", "unpublished_files_existed_during_gc"]
+        vec!["race:gc_queued_behind_commit", "race:gc_while_worker_writes_segment", "race:gc_while_merge_writes_segment", "race:gc_while_reader_loads", "race:old_updater_task_after_writer_drop", "old_updater_held_at_writer_drop", "race:worker_held_while_other_worker_fails", "wait_merging_threads_returned_worker_error", "race:worker_held_in_managed_list_write", "other_worker_registered_files_meanwhile", "reader_held_at_meta_lock", "reader_held_at_segment_file_open", "gate_reached", "unpublished_files_existed_during_gc"]
     }
     fn run(&self, c: &RaceCase, cx: &Ctx) -> CaseResult {
         let mut cfg = c.cfg.clone();
-        if c.kind == 5 {
+        if c.kind == 5 || c.kind == 6 {
             cfg.threads = 2;
         }
         let mut env = Env::new(cfg)?;
@@ -321,6 +323,30 @@ impl Sub for Races {
                 while t0.elapsed() < Duration::from_millis(40) {
                     std::thread::yield_now();
                 }
+            }
+            6 => {
+                cx.label("race:worker_held_in_managed_list_write");
+                let gate = sd.add_gate(GateSpec { thread: "thrd-tantivy-index".into(), kind: Some(K::AtomicWrite), path_suffix: ".managed.json".into(), nth: c.nth as usize, max_hold: Duration::from_millis(150) });
+                let before = sd.log_len();
+                for a in c.adds_during.iter().chain(c.adds_during.iter()) {
+                    env.apply(&Op::Add(a.clone()), cx)?;
+                }
+                reached = sd.wait_reached(gate, Duration::from_millis(200));
+                // the other worker goes on (or waits for the list): give it the time of the hold
+                env.apply(&Op::Commit, cx)?;
+                sd.release(gate);
+                if reached {
+                    let log = sd.clone_log();
+                    let holder = log.iter().skip(before).filter(|o| o.kind == K::AtomicWrite && o.path.to_string_lossy() == ".managed.json" && o.thread.starts_with("thrd-tantivy-index")).nth(c.nth as usize).map(|o| o.thread.clone());
+                    let others = log.iter().skip(before).filter(|o| o.kind == K::Create && o.thread.starts_with("thrd-tantivy-index") && Some(&o.thread) != holder.as_ref()).count();
+                    unpublished = others > 0;
+                    cx.label_if(others > 0, "other_worker_registered_files_meanwhile");
+                }
+                // the persisted list, as a fresh Index reads it, names every file that exists
+                let fresh = tantivy::Index::open(sd.clone()).or_fail("index_open_failed")?;
+                let managed: std::collections::BTreeSet<String> = fresh.directory().list_managed_files().iter().map(|p| p.to_string_lossy().to_string()).collect();
+                let unlisted: Vec<String> = sd.file_names().into_iter().filter(|p| !p.starts_with('.') && p != "meta.json" && !managed.contains(p)).collect();
+                ensure!(unlisted.is_empty(), "persisted_managed_list_misses_files", "after a commit these files exist but the persisted .managed.json does not name them (never collected after a restart): {unlisted:?}");
             }
             _ => {
                 cx.label("race:gc_while_merge_writes_segment");
